@@ -198,6 +198,7 @@ fn find_bind_borrow''', ['C09']),
                     }
                 }
             }''', ['C16']),
+    ('cfg_table_first_state_forced_true', 'macros/src/parse/cfg.rs', 'cfg_lookup.insert(predicate.to_string(), state);', 'cfg_lookup.insert(predicate.to_string(), state || cfg_lookup.is_empty());', ['C16']),
     ('cfg_evaluate_single_false_predicate_ignored', 'macros/src/data.rs', '''        if *cfg_lookup.get(&predicate).unwrap() == false {
             return false;''', '''        if *cfg_lookup.get(&predicate).unwrap() == false {
             return cfgs.len() > 1;''', ['C16']),
